@@ -13,9 +13,13 @@
 (*                                       a ref the push did not name):     *)
 (*                                       value before / after, result      *)
 (*                                       (1 TRUE, 0 FALSE, -1 exception)   *)
-(*   [p, op |-> "done", unp, st, refs, store]                              *)
+(*   [p, op |-> "done", unp, st, refs, store (, implied)]                  *)
 (*                                       the push ended; what the client   *)
-(*                                       was told; repository read back    *)
+(*                                       was told; repository read back;   *)
+(*                                       implied: for a push without       *)
+(*                                       report-status, the statuses the   *)
+(*                                       same push received in a second    *)
+(*                                       real run with report-status added *)
 (*                                                                         *)
 (* The monitor rebuilds the variables of RecvPack from the events and      *)
 (* evaluates RecvPack's own property operators after every event           *)
@@ -78,7 +82,8 @@ Apply(e) ==
             /\ UNCHANGED <<store, pc, olds, unp, st>>
       [] e.op = "done" ->
             /\ refs' = e.refs /\ store' = SetOf(e.store)
-            /\ st' = [st EXCEPT ![e.p] = e.st]
+            \* a push without report-status: the statuses the same push got with report-status added
+            /\ st' = [st EXCEPT ![e.p] = IF "implied" \in DOMAIN e THEN e.implied ELSE e.st]
             /\ unp' = [unp EXCEPT ![e.p] = IF e.unp \in {"ok", "fail"} THEN e.unp ELSE "none"]
             /\ pc' = [pc EXCEPT ![e.p] = "done"]
             /\ post' = [post EXCEPT ![e.p] = Finish(e.p, e.refs, exe[e.p], post[e.p])]
@@ -89,6 +94,7 @@ Clauses ==
     {<<"OkMeansHolds", w[1], w[2]>> : w \in BadOkMeansHolds'}
     \cup {<<"AppliedMeansOk", w[1], w[2]>> : w \in BadAppliedMeansOk'}
     \cup {<<"StaleUntouched", w[1], w[2]>> : w \in BadStaleUntouched'}
+    \cup {<<"ImpliedSuccess", w[1], w[2]>> : w \in BadImpliedSuccess'}
     \cup {<<"NoDanglingRef", r, 0>> : r \in BadNoDanglingRef'}
     \cup {<<"AtomicOK", p, 0>> : p \in BadAtomicOK'}
 
@@ -125,13 +131,19 @@ ShapeDone(e) ==
 
 Shapes(e) == IF e.op = "refop" THEN ShapeRefop(e) ELSE IF e.op = "done" THEN ShapeDone(e) ELSE {}
 
+\* pair clause: the run of the same push with report-status added ended in the same repository
+PairClauses(e) ==
+    IF e.op = "done" /\ "twinrefs" \in DOMAIN e
+       /\ ~ReportIndependent(e.refs, SetOf(e.store), e.twinrefs, SetOf(e.twinstore))
+    THEN {<<"ReportIndependent", e.p, 0>>} ELSE {}
+
 Consume ==
     /\ l <= Len(Ev)
     /\ UNCHANGED <<tid, ini, push, k, hist, emitted>>
     /\ LET e == Ev[l] IN
          /\ Apply(e)
          /\ shape' = shape \cup Shapes(e)
-    /\ bad' = bad \cup {<<c[1], c[2], c[3], l>> : c \in {d \in Clauses : \A b \in bad : <<b[1], b[2], b[3]>> # d}}
+    /\ bad' = bad \cup {<<c[1], c[2], c[3], l>> : c \in {d \in Clauses \cup PairClauses(Ev[l]) : \A b \in bad : <<b[1], b[2], b[3]>> # d}}
     /\ l' = l + 1
 
 Finish2 ==
